@@ -23,7 +23,7 @@ func init() {
 			ruleLabelSetString(r)
 			ruleGroupEntries(r)
 			ruleLimit(r)
-			ruleMergeIter(r) // limit keeps the first records in time order: the merge that feeds the pipeline yields them in time order
+			ruleMergeIter(r)                                                 // limit keeps the first records in time order: the merge that feeds the pipeline yields them in time order
 			ruleNoInPlaceValueMutation(r, []string{enginePkg, metricPkg}, 3) // a stream is the set of records with one label set: a label rewritten in place changes the labels of later records
 		},
 	})
